@@ -50,6 +50,16 @@ pub(super) fn reconstruct_blocks_from_verified_blobs(
 
     // match rollup blobs to header blobs
     for rollup in rollup_blobs {
+        // the namespace of a Celestia blob is chosen by whoever posted it; only data that is
+        // attributed (and proven, see below) to this rollup may be executed
+        if rollup.rollup_id() != rollup_id {
+            info!(
+                block_hash = %rollup.sequencer_block_hash(),
+                rollup_id_in_blob = %rollup.rollup_id(),
+                "dropping rollup blob because it is for a different rollup ID",
+            );
+            continue;
+        }
         if let Some(header_blob) =
             remove_header_blob_matching_rollup_blob(&mut header_blobs, &rollup)
         {
